@@ -708,7 +708,25 @@ def run(rep, tier, seed):
             except (ZeroDivisionError, OverflowError):
                 rep.count('gen-skipped'); continue
             cases.append((d, ctx, name, args))
-    evaluate(rep, cases, 'breakpoint_sample')
+    # exact cancellation (the zero of x + (-x), in both operand orders and every spelling): a breakpoint no context's grid
+    # produces, and the place where the sign rule of an exact zero sum lives (also under REAL: RealFloat.__add__)
+    canc = []
+    for d in list(CORPUS_CTX) + [{'fam': 'real'}] * 6 + [rand_ctx(R) for _ in range(30)]:
+        try:
+            ctx = ctx_obj(d)
+        except Exception:
+            continue
+        for _ in range(8):
+            v = rnd_dyadic(R) if R.random() < 0.8 else Fraction(R.randint(1, 9), R.choice([1, 2, 4, 8]))
+            if v == 0: continue
+            w = rnd_dyadic(R, bits=6, elo=-3, ehi=3) or Fraction(3)
+            for name, vals in (('add', [v, -v]), ('add', [-v, v]), ('sub', [v, v]), ('sub', [-v, -v]),
+                               ('fma', [v, w, -v * w]), ('fma', [-v, w, v * w]), ('fma', [v, -w, v * w])):
+                try:
+                    canc.append((d, ctx, name, [spell(R, x) for x in vals]))
+                except (ZeroDivisionError, OverflowError):
+                    pass
+    evaluate(rep, cases + canc, 'breakpoint_sample')
     evaluate_range(rep)
     selftest(rep, cases)
     if tier == 'thorough':
